@@ -2,7 +2,7 @@
     Only statements live here; each is closed by [exact] of a lemma proved elsewhere. *)
 From Coq Require Import List ZArith Sorted.
 From Coq Require String.
-From V Require Import Gen.Params PktProt.PktNum PktProt.PktNumProofs PktProt.KeyPhase PktProt.KeyPhaseProofs PktProt.KeyDerive PktProt.KeyDeriveProofs PktProt.KeyPhaseRun PktProt.KeyPhaseWindow PktProt.KeyPhaseSys PktProt.KeyPhaseSysProofs PktProt.KeyPhaseExamples PktProt.Sha256 PktProt.InitialKeys PktProt.InitialKeysProofs PktProt.Aes PktProt.InitialProtect PktProt.InitialProtectExamples PktProt.Retry PktProt.RetryProofs PktProt.AesProofs Lib.Hex PktProt.Protect PktProt.ProtectProofs PktProt.ProtectExamples PktProt.ProtectPack PktProt.ProtectPackProofs.
+From V Require Import Gen.Params PktProt.PktNum PktProt.PktNumProofs PktProt.KeyPhase PktProt.KeyPhaseProofs PktProt.KeyDerive PktProt.KeyDeriveProofs PktProt.KeyPhaseRun PktProt.KeyPhaseWindow PktProt.KeyPhaseSys PktProt.KeyPhaseSysProofs PktProt.KeyPhaseExamples PktProt.Sha256 PktProt.InitialKeys PktProt.InitialKeysProofs PktProt.Aes PktProt.InitialProtect PktProt.InitialProtectExamples PktProt.Retry PktProt.RetryProofs PktProt.AesProofs Lib.Hex PktProt.Protect PktProt.ProtectProofs PktProt.ProtectExamples PktProt.ProtectPack PktProt.ProtectPackProofs Wire.Varint Wire.VarintProofs Wire.Headers Wire.HeadersProofs PktProt.ProtectLong PktProt.ProtectLongProofs.
 Import ListNotations.
 Open Scope Z_scope.
 
@@ -173,6 +173,41 @@ Theorem C05_pack_unpack :
             (packet_payload ack padding frames).
 Proof. exact pack_unpack. Qed.
 Print Assumptions C05_pack_unpack.
+
+(** (a) at the datagram level, long headers: getLongHeader + ExtendedHeader.Append (the wire
+    unit's header codec, property C08, imported read-only) + appendLongHeaderPacket +
+    encryptPacket on the sending side; wire.ParsePacket + UnpackLongHeader on the receiving side.
+    For every supported version, packet type with a packet number, connection IDs up to 20
+    bytes, token, packet number / largest acknowledged / receiver state as in C05_pack_unpack,
+    ACK and frame bytes, extra padding, Length fitting the 2-byte field, and ANY bytes
+    coalesced behind the packet: ParsePacket reads the header fields the packer was given
+    (header protection does not disturb what it looks at), cuts out exactly the packet and
+    returns the rest, and the unpacker opens the packet to the packet number, its length and
+    the padded payload.  Extra hypothesis: the mask function returns bytes. *)
+Theorem C05_long_datagram_roundtrip :
+  forall (aead_seal : Z -> Z -> list Z -> list Z -> list Z)
+         (aead_open : Z -> Z -> list Z -> list Z -> option (list Z))
+         (hp_mask : list Z -> list Z),
+    (forall pn kp ad p, aead_open pn kp ad (aead_seal pn kp ad p) = Some p) ->
+    (forall pn kp ad p, length (aead_seal pn kp ad p) = (length p + 16)%nat) ->
+    (forall s, Forall is_byte (hp_mask s)) ->
+    forall (ty v : Z) (src dst tok : list Z) (pn la largest : Z) (ack frames : list Z) (extra : nat) (rest : list Z),
+      valid_version v -> pn_type ty ->
+      zlen dst <= W_MaxConnIDLen -> zlen src <= W_MaxConnIDLen -> zlen tok <= maxVarInt8 ->
+      0 <= pn < 2 ^ 62 -> -1 <= la -> la <= largest <= pn -> pn - la <= 2 ^ 31 ->
+      ack ++ frames <> [] ->
+      let pnLen := lenForHeader pn la in
+      let payload := packet_payload ack (pad_len (Z.to_nat pnLen) (length ack + length frames) extra) frames in
+      pnLen + zlen payload + 16 <= maxVarInt2 ->
+      exists pkt h,
+        pack_long_datagram aead_seal hp_mask ty v src dst tok pn la ack frames extra = Some pkt /\
+        unpack_long_datagram aead_open hp_mask largest (pkt ++ rest) =
+          inr (h, UOk (192 + 16 * type_code v ty + (pnLen - 1)) pn pnLen 0 payload, rest) /\
+        hType h = ty /\ hVersion h = v /\ hSrc h = src /\ hDst h = dst /\
+        hToken h = (if ty =? H_PacketTypeInitial then tok else []) /\
+        hLength h = pnLen + zlen payload + 16.
+Proof. exact long_datagram. Qed.
+Print Assumptions C05_long_datagram_roundtrip.
 
 (** (d) Any modification is rejected rather than yielding different plaintext: under ideal
     integrity of the AEAD (whatever opens was sealed by the honest sender — predicate
